@@ -75,12 +75,24 @@ def path(c, job):
             else:
                 class Owner:
                     t = mt.tunable[hint](default)
-            o = Owner()
-            mt.setup_tunables(o, f"o{i}", "components")
-            got = ntcore.STORE.types.get(f"/components/o{i}/t")
             c.reach("type-table")
+            try:
+                o = Owner()
+                mt.setup_tunables(o, f"o{i}", "components")
+            except Exception as e:
+                c.prove("C09.type supported-default-can-be-set-up", False, info=dict(default=repr(default), hint=str(hint), exc=repr(e)[:160]))
+                continue
+            got = ntcore.STORE.types.get(f"/components/o{i}/t")
             c.prove("C09.type topic-type-from-default-or-hint", got is not None and got[0] == topic, info=dict(default=repr(default), hint=str(hint), got=got))
             c.prove("C09.type initial-read-is-default", list(o.t) == list(default) if isinstance(default, (list, tuple)) else o.t == default)
+            # write / read round trip on the typed entry
+            v2 = default[::-1] if isinstance(default, (list, tuple, bytes, str)) else (not default if isinstance(default, bool) else default + 1)
+            try:
+                o.t = v2
+                ok = (list(o.t) == list(v2)) if isinstance(v2, (list, tuple)) else o.t == v2
+            except Exception as e:
+                ok = False
+            c.prove("C09.type write-read-round-trip", ok, info=dict(default=repr(default)))
         # rejected defaults
         for bad in (object(), None, {"a": 1}):
             try:
